@@ -213,6 +213,10 @@ def cpu_guard(seconds=30.0):
     def handler(sig, frame):
         raise CaseHang(f"no result within {seconds:g} s of CPU time")
 
+    import gc
+
+    gc_was_on = gc.isenabled()
+    gc.disable()  # a full collection in a long-running shard must not count against the case
     old = signal.signal(signal.SIGPROF, handler)
     signal.setitimer(signal.ITIMER_PROF, seconds, 1.0)
     try:
@@ -220,6 +224,8 @@ def cpu_guard(seconds=30.0):
     finally:
         signal.setitimer(signal.ITIMER_PROF, 0)
         signal.signal(signal.SIGPROF, old)
+        if gc_was_on:
+            gc.enable()
 
 
 def hyp_stateful(machine_cls, *, seed, max_examples, step_count, shrink_budget_s=60.0):
